@@ -161,6 +161,31 @@ theorem C17_intx_reuse (env : Env) (init : Side) (pre : List Req) (r : TReq)
     (exec env (initState init) pre r.w).act.last = r.pstate :=
   Sync.reuse_only_to_holder env init pre r hp h
 
+/-! ## The assumption behind "identity tokens": no address reuse while memoized -/
+
+/-- All theorems above are about a `_pickle_memoized` that returns, for an object, the
+    pickle of that object (`MemoFaithful`): then the transition with an explicit memo IS the
+    model's transition.  `functools.lru_cache` guarantees it by keeping its keys alive. -/
+theorem C17_memo_faithful (memo : Tok → Tok) (h : MemoFaithful memo) (env : Env) (st : State)
+    (r : CReq) : stepCompileMemo memo env st r = stepCompile env st r :=
+  Sync.stepCompileMemo_faithful memo h env st r
+
+/-- … and it is needed.  A memo keyed by address: the database config 24 was allocated
+    where the dead config 20 used to be and gets 20's pickle.  The request succeeds, the
+    worker compiles with 20, the server records 24 as held — never re-sent, no error.
+    (Tokens as in the counter-histories below.) -/
+theorem C17_memo_counterexample :
+    let memo : Tok → Tok := fun t => if t = 24 then 20 else t
+    let r : CReq := { w := 0, db := 0, schema := 8, refl := 16, glob := 28, dbcfg := 24, sys := 36,
+                      out := .ok, ns := 400 }
+    let st : State := initState { dbs := fun db => if db = 0 then some ⟨8, 16, 21⟩ else none,
+                                  glob := 28, sys := 36, last := none }
+    (stepCompileMemo memo tokEnv st r).2.res = .ok ∧
+    (stepCompileMemo memo tokEnv st r).2.used = some ⟨8, 28, 16, 20, 36⟩ ∧
+    ((stepCompileMemo memo tokEnv st r).1 0).bel.get (.dbcfg 0) = some 24 ∧
+    ((stepCompileMemo memo tokEnv st r).1 0).act.get (.dbcfg 0) = some 20 := by
+  decide
+
 /-! ## Counter-histories for the statements that are still false
 
 Token encoding `tokEnv`: bit 0 = falsy, bit 1 = cannot be unpickled.
